@@ -28,6 +28,9 @@ func get[X ~[]E, E any](x X, i int) (X, *E) {
 type Uint64 uint64
 
 func decode(b string) (uint64, error) {
+	if len(b) > 16 {
+		return 0, fmt.Errorf("hex number too large for uint64: %q", b)
+	}
 	var res uint64
 	for i := range b {
 		var nibble uint64
@@ -42,9 +45,6 @@ func decode(b string) (uint64, error) {
 			return 0, fmt.Errorf("invalid hex %x", b)
 		}
 		res = (res << 4) | nibble
-		if i == 15 {
-			break
-		}
 	}
 	return res, nil
 }
